@@ -43,6 +43,8 @@ CHECKS = {
             '2-3 forks x buffer sizes x source lengths (0, 1, <=window, >window) x source failure positions x owned schedules incl. preemption between any two lines of the fork step'),
     'C11': ('fault_enumeration', T_SIM + 'every init-failure position of every generated servlet tree is enumerated (exhaustive per tree); enter must raise that error and leave nothing running; lifecycle histories with re-entry judged by the reference evaluator; real-process family for ProcessServlet incl. abandoned streams', SIM_NOTE + ' ' + REAL_NOTE,
             'complete enumeration of (servlet, worker index) init-failure positions per generated tree; generated workloads x enter/exit/re-enter cycles x owned schedules; sampled real processes'),
+    'C17': ('exploration', T_SIM + 'per-round multiset equality, no cross-round leak, termination of every party (deadlock/horizon verdicts); exact stop latency of ResponsiveQueue in virtual time; sampled real threads/processes with a stop event', SIM_NOTE + ' ' + REAL_NOTE,
+            'm x n parties x queue bounds x rounds separated by renew x owned schedules incl. line-granular preemption inside queue.py; stop requests at generated virtual moments'),
     'C19': ('exploration', T_SIM + 'validity predicates over the (virtual time, batch) log: partition, sizes, exact deadline rule with stall budget 0', SIM_NOTE,
             'generated arrival-time sequences x batch_size x wait x marker kind x schedules; timing checked exactly in virtual time'),
 }
